@@ -66,6 +66,28 @@ def _scan(s, i, open_ch, close_ch):
                 i += 1
             i += 1
             continue
+        if c == "#" and s[:i].rstrip(" \t").endswith("\n"):
+            # preprocessor conditional inside the sliced text: braces are counted in the first branch only
+            # (both branches of an #ifdef may open the same block, e.g. Quote's SONIC_USE_SANITIZE split)
+            md = re.match(r"#\s*(else|elif)\b", s[i:])
+            if md:
+                lvl = 0
+                j = i
+                while True:
+                    j = s.find("\n", j)
+                    if j < 0:
+                        raise SliceError("unterminated #else")
+                    j += 1
+                    ml = re.match(r"[ \t]*#\s*(if|ifdef|ifndef|endif)\b", s[j:])
+                    if ml:
+                        if ml.group(1) == "endif":
+                            if lvl == 0:
+                                break
+                            lvl -= 1
+                        else:
+                            lvl += 1
+                i = j
+                continue
         if c == open_ch:
             depth += 1
         elif c == close_ch:
@@ -329,8 +351,12 @@ def slice_unit(name, u, outdir, manifest):
         cd = u.get("check_disable", [])
         if cd:
             text += "#ifndef OBSERVE_ALL\n#pragma CPROVER check push\n" + "".join('#pragma CPROVER check disable "%s"\n' % c for c in cd) + "#endif\n"
+        # -DCONTRACT_ONLY_<cname>: keep only the contract-bearing declaration (for jobs that replace every call of
+        # this function by its contract and must not link its body, e.g. because of CBMC limitations)
+        text += "#ifndef CONTRACT_ONLY_%s\n" % cname
         text += "#line %d \"%s\"\n" % (line, os.path.join(REPO, path))
         text += "%s\n%s\n" % (sig, body)
+        text += "#endif\n"
         if cd:
             text += "#ifndef OBSERVE_ALL\n#pragma CPROVER check pop\n#endif\n"
         text += "\n".join(undefs) + ("\n" if undefs else "")
